@@ -446,6 +446,7 @@ func c13Floats(c *Ctx) {
 	c.Obs("floats_checked", int64(len(fs)))
 	c13FloatLiterals(c)
 	c13GoIntegerKinds(c)
+	c13FloatIntoDecimal(c)
 }
 
 // c13GoIntegerKinds marshals the extreme values of every Go integer kind (also as named types and
